@@ -483,7 +483,9 @@ func durations() []time.Duration {
 
 func times() []time.Time {
 	var out []time.Time
-	secs := []int64{-62135596800, -62135596799, -1, 0, 1, 999999999, 1000000000, 1000000001, 253402300799, 253402300798, -2208988800, 1709164800 /* leap day */, 951782400}
+	secs := []int64{-62135596800, -62135596799, -1, 0, 1, 999999999, 1000000000, 1000000001, 253402300799, 253402300798, -2208988800, 1709164800 /* leap day */, 951782400,
+		// around 2^63/1e9 and 2^64/1e9: where seconds*1e9 leaves int64 / uint64 (unixnano and friends)
+		9223372036, 9223372037, -9223372036, -9223372037, 18446744073, 18446744074, -18446744073, -18446744074, 19000000000, -19000000000, 9999999999, 10000000000, 19999999999, 20000000000}
 	nanos := []int64{0, 1, 999, 1000, 1000000, 999999999, 500000000, 123456789}
 	zones := []*time.Location{time.UTC, time.FixedZone("", 23*3600+59*60), time.FixedZone("", -60), time.FixedZone("", 5*3600+30*60)}
 	for _, s := range secs {
